@@ -135,7 +135,7 @@ def join(sigs, spec):
             unspecified.append({"method": name, "why": "no entry in spec/arm64.toml"})
             continue
         fam, env = by_method[name]
-        want = fam["params"]
+        want = [expand(x, env) for x in fam["params"]]
         have = [t for _, t in params]
         if want != have:
             changed.append({"method": name, "why": "signature %s differs from the spec's %s" % (have, want)})
@@ -152,7 +152,7 @@ def join(sigs, spec):
 # ---------------------------------------------------------------------------------------------
 # code emission
 
-HEADER = "// GENERATED by /verif/engines/kani_asm/gen_arm64.py -- do not edit\n#![allow(unused_variables, unused_mut, unused_imports, clippy::all)]\nuse crate::support::*;\n"
+HEADER = "// GENERATED by /verif/engines/kani_asm/gen_arm64.py -- do not edit\n#![allow(unused_variables, unused_mut, unused_imports, unused_parens, clippy::all)]\nuse crate::support::*;\n"
 
 
 def emit_calls(methods):
@@ -165,8 +165,13 @@ def emit_calls(methods):
         o.append("pub fn contract_%s(%s) -> bool {\n    %s\n}\n" % (m.name, m.sig(), m.text("contract")))
         if m.kind == "simple":
             o.append("pub fn expect_%s(%s) -> Insn {\n    %s\n}\n" % (m.name, m.sig(), m.text("expect")))
-            o.append("pub fn post_%s(w: &Words, %s) -> bool {\n    one(w, expect_%s(%s))\n}\n"
-                     % (m.name, m.sig(), m.name, m.args()))
+            if "expect2" in m.fam:
+                o.append("pub fn expect2_%s(%s) -> Insn {\n    %s\n}\n" % (m.name, m.sig(), m.text("expect2")))
+                o.append("pub fn post_%s(w: &Words, %s) -> bool {\n    one(w, expect_%s(%s)) || one(w, expect2_%s(%s))\n}\n"
+                         % (m.name, m.sig(), m.name, m.args(), m.name, m.args()))
+            else:
+                o.append("pub fn post_%s(w: &Words, %s) -> bool {\n    one(w, expect_%s(%s))\n}\n"
+                         % (m.name, m.sig(), m.name, m.args()))
         elif m.kind in ("movimm", "mem"):
             o.append("pub fn post_%s(w: &Words, %s) -> bool {\n    %s\n}\n" % (m.name, m.sig(), m.text("post")))
         else:
